@@ -79,6 +79,10 @@ func vuMustSign(t *asserts.AssertionType, headers map[string]interface{}, body [
 	return a
 }
 
+func vuDate(y int, m time.Month, d int) time.Time {
+	return time.Date(y, m, d, 0, 0, 0, 0, time.UTC)
+}
+
 func vuTS(t time.Time) string { return t.UTC().Format(time.RFC3339Nano) }
 
 // vuAccount builds an account assertion signed by key k of authority.
@@ -136,7 +140,12 @@ func vuRawSignature(k *vuKey, content []byte) []byte {
 	if err := sig.Serialize(&pkt); err != nil {
 		panic(fmt.Sprintf("HARNESS: raw sign serialize: %v", err))
 	}
-	flat := base64.StdEncoding.EncodeToString(pkt.Bytes())
+	return vuEncodeSig(pkt.Bytes())
+}
+
+// vuEncodeSig spells decoded signature octets as a signature field.
+func vuEncodeSig(decoded []byte) []byte {
+	flat := base64.StdEncoding.EncodeToString(decoded)
 	var out bytes.Buffer
 	for len(flat) > 76 {
 		out.WriteString(flat[:76])
